@@ -43,8 +43,10 @@ def decode_at(bs, i):
     """-> (Sc char, width)"""
     b = bs[i]
     if not isinstance(b, int):
-        e = z3.ZeroExt(24, b)
         d = DOMAINS.get(b.get_id())
+        if d is not None and len(d) == 1:
+            return Sc(next(iter(d)), 32), 1       # pinned by the path condition
+        e = z3.ZeroExt(24, b)
         if d is not None:
             set_domain(e, d)
         return Sc(e, 32), 1
@@ -84,8 +86,11 @@ def ch_is_whitespace(ch):
     if ch.concrete:
         return sc_bool(ch.v in WS_CP)
     d = DOMAINS.get(ch.v.get_id())
-    if d is not None and not (d & _ASCII_WS):
-        return FALSE
+    if d is not None:
+        if not (d & _ASCII_WS):
+            return FALSE
+        if d <= _ASCII_WS:
+            return TRUE
     z = ch.z()
     return mk_bool(z3.Or(z == 32, _in_range(ch, 9, 13)))
 
